@@ -41,6 +41,12 @@ def close(a: float, b: float, rel=1e-9, abs_=1e-12) -> bool:
     return abs(a - b) <= max(abs_, rel * max(abs(a), abs(b)))
 
 
+def shash(s: str) -> int:
+    """stable string hash for seed derivation (Python's hash() is salted per process)"""
+    import zlib
+    return zlib.crc32(s.encode()) & 0x7FFFFFFF
+
+
 def dstr(s):
     """python drift_state -> protocol token"""
     return {None: "N", "warning": "W", "drift": "D"}[s]
